@@ -7,7 +7,7 @@ import ast
 from ..core import Ctx, RuleResult, finding, short, walk_no_nested
 from ..model import AnalysisError, norm
 from ..rules import exc, kind, prog
-from ..rules import lookahead
+from ..rules import alias, lookahead
 from ..rules.exc import ExcEngine
 from ..rules.util import callee_name, calls_in, cfg_of, node_exprs, nodes_where
 from ..tables import C15_BOUNDARY_OK, C15_INFEASIBLE
@@ -23,6 +23,7 @@ EXPLANATION = (
     ' Round 4: C15.4 follows locals bound to a grid row (`line = self.term[y]`); (13) every scroll decision of linefeed / push_cursor compares the row with the scroll-region margin.'
     ' Round-4 triage: (14) scroll / IL / DL pop before they insert and IL / DL return outside the scrolling region; (15) erase calls pass inclusive cursor coordinates; (16) the canvas cursor is built from constrained coordinates; (17) counting loops driven by an escape-sequence parameter are clamped with min() first; (18) SGR state: csi_set_attr() undoes exactly the colour adjustment sgi_to_attrspec() applies (bold->bright, foreground only) and no SGR parameter is interpreted by fixed position; (19) lines leaving the scrollback are cut / padded to the current width and shortening the scrollback re-clamps scrolling_up. Round 5: (18) the undo also repeats the colour-depth test of the mapping; (20) no slice bound of TermCanvas is an unclamped difference of runtime quantities. Round-5 triage: (13, sharpened) the region scrolls under equality with the margin, in push_cursor as in linefeed; (21) SHADOW - no loop target clobbers a live local; (22) the fixed-length palette sequence is complete with the 7th buffered character; (23) ED corners ignore the scrolling margins.'
     ' Round 6: (24) BOUND: every look-ahead read L[i + k] in vterm.py is covered by a length test i + m < len(L) with m >= k (earlier operand of the same `and`, or a dominating test): SGR 38;5 / 38;2 with the parameters cut short must not raise IndexError.'
+    ' (25) ALIAS: the classes TermCanvas freezes with copy.copy() (save_cursor: AttrSpec, TermCharset) never edit one of their container attributes in place (fix 43a10ab: DECSC / DECRC restores the G0 / G1 designations).'
 )
 NOT_DECIDED = (
     "Index-bounds safety of every self.term[y][x] access (IndexError is outside the exception model; only the clamp discipline is decided), width normalisation of rows returned "
@@ -893,6 +894,7 @@ def run(ctx: Ctx):
         rule_osc_palette_length(ctx),
         rule_erase_display_absolute(ctx),
         lookahead.run_lookahead(p, "C15.24", [VT], floor=4),
+        alias.run_shallow_copy(p, "C15.25", [VT], floor=1),
     ]
     return out
 
@@ -901,6 +903,7 @@ from ..mutants import Mut  # noqa: E402
 
 _V = "urwid/vterm.py"
 MUTANTS = [
+    Mut("charset-designation-in-place", _V, "TermCharset.define", "        self._g = [*self._g[:g], charset, *self._g[g + 1 :]]\n", "        self._g[g] = charset\n", "ALIAS|vterm.TermCharset.define|TermCharset: container edited in place although instances are shallow-copied"),
     Mut("scrollback-cursor-closed-bound", _V, "TermCanvas.set_term_cursor", "self.scrolling_up < self.height - y:", "y + self.scrolling_up <= self.height:", "POSBOUND|vterm.TermCanvas.set_term_cursor|canvas cursor row not shown inside the canvas"),
     Mut("twin-scrollback-cursor-sum-form", _V, "TermCanvas.set_term_cursor", "self.scrolling_up < self.height - y:", "y + self.scrolling_up < self.height:", twin=True),
     Mut("twin-scrollback-cursor-le-minus-one", _V, "TermCanvas.set_term_cursor", "self.scrolling_up < self.height - y:", "y + self.scrolling_up <= self.height - 1:", twin=True),
